@@ -164,6 +164,10 @@ func TestCheck(t *testing.T) {
 	}
 	r.SetSampleCap(8)
 	ps := plans(r.Thorough())
+	if os.Getenv("VERIF_ID") != "C02" {
+		// ext_epoch: sync points at every position of a dBFT epoch, native caches rebuilt at the jump
+		ps = append(ps, epochPlans(r.Thorough())...)
+	}
 	if os.Getenv("VERIF_ID") == "C02" {
 		// part `jump` of C02 (crash points of the state jump): the configurations
 		// without state roots in headers are about the announced root, a C20 matter
@@ -190,6 +194,21 @@ func TestCheck(t *testing.T) {
 			noSRIH++
 		}
 	}
+	epochConfs, epochChanges := 0, 0
+	epochPos := vk.NewSet()
+	for _, c := range confs {
+		if !c.prof.Lean {
+			continue
+		}
+		epochConfs++
+		epochPos.Add(fmt.Sprint((c.P + 1) % 6))
+		// measured: boundaries after P at which the committee / validators of the source change
+		for h := c.P + 1; h <= c.src.tip; h++ {
+			if c.src.lite[h]["committee"] != c.src.lite[h-1]["committee"] || c.src.lite[h]["next_validators"] != c.src.lite[h-1]["next_validators"] {
+				epochChanges++
+			}
+		}
+	}
 	x.run(r.Workers())
 	multiFinal := 0
 	st.mu.Lock()
@@ -205,34 +224,39 @@ func TestCheck(t *testing.T) {
 	fmt.Printf("c20/sync: states=%d transitions=%d jobs=%d complete=%d merged=%d probes=%d rejected-with-error=%d restarts=%d crashes=%d crash-states=%d jumps=%d orders=%d stages=%d violations=%d (%.1fs)\n",
 		st.states.Get(), st.transitions.Get(), st.jobs.Get(), st.completed.Get(), st.merged.Get(), st.probes.Get(), st.rejected.Get(), st.restarts.Get(), st.crashes.Get(), st.crashStates.Len(), st.jumps.Get(), st.orders.Len(), st.stages.Len(), st.violations.Get(), r.Elapsed())
 	r.Finish(map[string]any{
-		"states":                                      int(st.states.Get()),
-		"transitions":                                 int(st.transitions.Get()),
-		"traces_validated_against_impl":               int(st.jobs.Get()),
-		"complete_traces":                             int(st.completed.Get()),
-		"traces_merged_into_known_state":              int(st.merged.Get()),
-		"distinct_delivery_orders":                    st.orders.Len(),
-		"wrong_data_probes":                           int(st.probes.Get()),
-		"wrong_data_rejected_with_error":              int(st.rejected.Get()),
-		"restarts":                                    int(st.restarts.Get()),
-		"crash_points":                                int(st.crashes.Get()),
-		"distinct_crash_databases":                    st.crashStates.Len(),
-		"state_jumps":                                 int(st.jumps.Get()),
-		"outdated_point_refusals":                     int(st.outdated.Get()),
-		"nodes_not_closable_after_panic":              int(st.leaked.Get()),
-		"distinct_stage_getter_vectors":               st.stages.Len(),
-		"root_announcements_genuine_events":           int(st.initEvents.Get()),
-		"root_announcement_probes":                    int(st.initProbes.Get()),
-		"root_announcement_probes_refused":            int(st.initRefused.Get()),
-		"root_announcement_kind_x_context":            st.initCtx.Len(),
-		"root_announcement_kinds_and_contexts":        st.initCtx.Sorted(),
-		"configurations_without_state_root_in_header": noSRIH,
-		"configurations":                              cfgNames,
-		"tries":                                       trieInfo,
-		"distinct_final_databases_per_source_point":   finals,
-		"bounds":          "per configuration: one default delivery order (lowest hash | highest hash | pre-order | reverse pre-order | level by level) + every trace with at most <budget> deviations from it (a deviation = another unknown node, a subtree answer, an all-unknown batch, a good+corrupted batch, another item batch size / wrong / omitted item, a header batch that stops short of the tip or overlaps, flush, restart, restart with the tip as peer height, crash at a batch prefix); on traces without other deviations additionally ALL header splits below the sync point, ALL item batch sizes and ALL node orders once at most <tail> trie nodes are missing; thorough adds budget 2 for flush/restart/crash on three configurations; storage-based mode also on chains without state roots in headers (left out when the package runs as part `jump` of C02), there with a plain and with a witnessed announced root",
-		"events":          "hdr(k) / hdr(overlap), node(x) for every currently unknown x, sub(x[,3]) = (truncated) subtree answer of a peer, all(asc|desc), mix(good+corrupted), nodedup (a later duplicate MPT message when nothing is requested any more), init = the state source announces the genuine root of the sync point (InitContractStorageSync; first event of the storage stage on every module instance, i.e. again after each restart/crash), items(k | bad | gap | redo), blk = Module.AddBlock(next), pblk = Blockchain.AddBlock(next) after the jump, flush, restart (same peer height | source tip), crash(i) = database cut after the i-th batch of the last event (every stage batch of the state jump included)",
+		"states":                                          int(st.states.Get()),
+		"transitions":                                     int(st.transitions.Get()),
+		"traces_validated_against_impl":                   int(st.jobs.Get()),
+		"complete_traces":                                 int(st.completed.Get()),
+		"traces_merged_into_known_state":                  int(st.merged.Get()),
+		"distinct_delivery_orders":                        st.orders.Len(),
+		"wrong_data_probes":                               int(st.probes.Get()),
+		"wrong_data_rejected_with_error":                  int(st.rejected.Get()),
+		"restarts":                                        int(st.restarts.Get()),
+		"crash_points":                                    int(st.crashes.Get()),
+		"distinct_crash_databases":                        st.crashStates.Len(),
+		"state_jumps":                                     int(st.jumps.Get()),
+		"outdated_point_refusals":                         int(st.outdated.Get()),
+		"nodes_not_closable_after_panic":                  int(st.leaked.Get()),
+		"distinct_stage_getter_vectors":                   st.stages.Len(),
+		"root_announcements_genuine_events":               int(st.initEvents.Get()),
+		"root_announcement_probes":                        int(st.initProbes.Get()),
+		"root_announcement_probes_refused":                int(st.initRefused.Get()),
+		"root_announcement_kind_x_context":                st.initCtx.Len(),
+		"root_announcement_kinds_and_contexts":            st.initCtx.Sorted(),
+		"configurations_without_state_root_in_header":     noSRIH,
+		"epoch_family_configurations":                     epochConfs,
+		"epoch_family_sync_point_positions_in_epoch":      epochPos.Len(),
+		"epoch_family_committee_changes_after_sync_point": epochChanges,
+		"epoch_family_native_getter_comparisons":          int(st.nativeReads.Get()),
+		"inline_child_deliveries":                         int(st.inlines.Get()),
+		"configurations":                                  cfgNames,
+		"tries":                                           trieInfo,
+		"distinct_final_databases_per_source_point":       finals,
+		"bounds":          "per configuration: one default delivery order (lowest hash | highest hash | pre-order | reverse pre-order | level by level) + every trace with at most <budget> deviations from it (a deviation = another unknown node, a subtree answer, an all-unknown batch, a good+corrupted batch, another item batch size / wrong / omitted item, a header batch that stops short of the tip or overlaps, flush, restart, restart with the tip as peer height, crash at a batch prefix); on traces without other deviations additionally ALL header splits below the sync point, ALL item batch sizes and ALL node orders once at most <tail> trie nodes are missing; thorough adds budget 2 for flush/restart/crash on three configurations; storage-based mode also on chains without state roots in headers (left out when the package runs as part `jump` of C02), there with a plain and with a witnessed announced root; epoch family (multi-i5-mtb2: 4 validators / 6 committee members, one 42-block programme whose committee and validators change at every epoch boundary and whose Policy / Notary / Oracle / NEO / RoleManagement / ContractManagement values change at P-1 and P and are used at P+1): sync points 10..35 = all six positions of an epoch, lean profile = one default line (all requested nodes per message, one item batch) + flush / restart / restart-with-tip / crash at every batch in the blocks stage, at the jump and at each of the first 7 heights after P, lockstep to the tip (several later boundaries)",
+		"events":          "hdr(k) / hdr(overlap), node(x) for every currently unknown x, sub(x[,3]) = (truncated) subtree answer of a peer, all(asc|desc), mix(good+corrupted), nodedup (a later duplicate MPT message when nothing is requested any more), inl(x) = the requested inner node x with one child serialised in full instead of by hash (same hash as the canonical form; must be refused leaving x requested, or handled so that the child is requested or stored), init = the state source announces the genuine root of the sync point (InitContractStorageSync; first event of the storage stage on every module instance, i.e. again after each restart/crash), items(k | bad | gap | redo), blk = Module.AddBlock(next), pblk = Blockchain.AddBlock(next) after the jump, flush, restart (same peer height | source tip), crash(i) = database cut after the i-th batch of the last event (every stage batch of the state jump included)",
 		"wrong_data_menu": "per new state (full menu on the default line and after a deviation, two rotating entries elsewhere): duplicate / far-ahead / gapped / 6 kinds of tampered headers / good+tampered batch; headers, nodes, blocks outside their stage; already restored node, valid node below an unknown one, nodes of the trie of another height, requested node with one byte changed (4 positions; all positions of short nodes in thorough), truncated, garbage; empty / duplicate item batch, wrong root or height for InitContractStorageSync; foreign announced roots wherever the node has a header, an earlier announcement or a loaded checkpoint to compare with (zero, root of all items but the last, root of the items stored so far = the checkpoint's intermediate root, root after the next default batch, roots of heights P-1 and P+1, genuine root under height P-1, previous sync point with its own root, witness with a foreign verification script): error required, state key unchanged, and the genuine root must still be accepted right afterwards; the genuine root announced again (must be accepted); announcements in the headers stage, the blocks stage and after the jump (nothing may change, foreign ones refused); duplicate / next-but-one / far-ahead / 3 kinds of tampered blocks for Module.AddBlock, duplicate / next-but-one / 4 kinds of tampered blocks for Blockchain.AddBlock",
-		"final_oracle":    "at the jump and after every restart on a jumped database: height, block hash, GetStateRoot, local root, full contract storage dump, committee, validators, policy, natives, contracts, candidates equal to the source at that height; traceable blocks and their transactions readable; the key-value pairs enumerated through the stored state trie equal to the source's; every later block accepted with an observation (incl. execution results) equal to the source's; at the tip again after flush + garbage collection and after a restart",
+		"final_oracle":    "at the jump and after every restart on a jumped database (epoch family: also after every later block): ~25 native getters answered by test invocations (committee, validators, candidates, GAS per block, register price, unclaimed GAS, policy values, blocked account, notary delta, oracle price, designated roles, contract methods) and CalculateClaimable equal to the source; height, block hash, GetStateRoot, local root, full contract storage dump, committee, validators, policy, natives, contracts, candidates equal to the source at that height; traceable blocks and their transactions readable; the key-value pairs enumerated through the stored state trie equal to the source's; every later block accepted with an observation (incl. execution results) equal to the source's; at the tip again after flush + garbage collection and after a restart",
 		"state_key":       "stage getters (IsActive, IsInitialized, NeedHeaders, NeedStorageData, NeedBlocks), sync point, header height, block height, Module.BlockHeight, unknown-node set, digest of the raw database, restarts so far, peer height given to Init, last stored key and harness flags (items mode)",
 	}, []string{
 		"equal state keys have equal futures: the part of the state that is only in memory is represented by the header height, the unknown-node set (which, for a fixed source trie, determines the restored set), the module's block height and the item stream position; the digest covers the flushed part",
